@@ -318,11 +318,38 @@ def iobuffers_fns(external=False):
     return fns
 
 
+FD = 'src/transport/fusedev/mod.rs'
+FUSEBUF = r"""
+// the memory a FuseBuf borrows (`&'a mut [u8]`): its address range; as_mut_ptr / len as for slices
+#[verifier::external_body] pub struct FuseMem<'a> { _p: PhantomData<&'a u8> }
+pub struct MemPtr { pub addr: Ghost<int> }
+impl<'a> FuseMem<'a> {
+    pub uninterp spec fn addr(&self) -> int;
+    pub uninterp spec fn mlen(&self) -> nat;
+    #[verifier::external_body] pub fn as_mut_ptr(&self) -> (r: MemPtr) ensures r.addr@ == self.addr() { unimplemented!() }
+    #[verifier::external_body] pub fn len(&self) -> (r: usize) ensures r == self.mlen() { unimplemented!() }
+}
+#[verifier::external_body] pub fn vx_with_bitmap<'a, S>(p: MemPtr, len: usize) -> (r: VolatileSlice<'a, S>) ensures r.addr() == p.addr@, r.slen() == len { unimplemented!() }
+"""
+
+
 def unit(root='/repo'):
     items = [
         Raw(MODEL),
         Copy(T, r"struct IoBuffers<'a, S>", prefix='#[verifier::reject_recursive_types(S)]'),
         Raw(SPEC),
         Group("impl<'a, S: BitmapSlice> IoBuffers<'a, S> {", iobuffers_fns()),
+        # ---- the /dev/fuse Reader is built over exactly the request buffer: one slice, its first byte, its whole length, nothing consumed yet
+        Raw(FUSEBUF),
+        Copy(T, r"pub struct Reader<'a, S = \(\)>", subst=[('S = ()', 'S')], prefix='#[verifier::reject_recursive_types(S)]'),
+        Copy(FD, r"pub struct FuseBuf<'a>", subst=[("mem: &'a mut [u8],", "mem: FuseMem<'a>,")]),
+        Group("impl<'a, S: BitmapSlice + Default> Reader<'a, S> {", [
+            Fn(FD, "impl<'a, S: BitmapSlice + Default> Reader<'a, S>", 'from_fuse_buffer', props=['C04'], canary=True, extra_props=['C01'],
+               body_resub=[(r'unsafe\s*\{\s*VolatileSlice::with_bitmap\(([^,]+),\s*([^,]+),\s*S::default\(\),\s*None\)\s*\}', r'vx_with_bitmap(\1, \2)',
+                            'VolatileSlice::with_bitmap(ptr, len, ..) -> model call: the slice at that address with that length (vm-memory, as documented)')],
+               ensures=['r is Ok // [C04.reader.new.ok]',
+                        'r is Ok ==> cells(r->Ok_0.buffers.buffers@) =~= range(buf.mem.addr(), buf.mem.mlen()) && r->Ok_0.buffers.bytes_consumed == 0 // [C04.reader.new.whole_buffer] every byte of the request buffer, once, in order'],
+               splices=[('Ok(Reader {', 'before', 'proof { let b = buffers@; assert(b.len() == 1); lemma_cells_one(b[0]); assert(b =~= seq![b[0]]); }')]),
+        ]),
     ]
     return Unit('iobuffers', items, preludes=['base.rs'])
